@@ -424,6 +424,83 @@ def run(ck):
         ok = len(san) == 1 and all(cfg.ev_dominates(d, san[0], t) for t in tree) and uses
         ck.ob("C10-R4", "sanitize:Router::" + name, ok, fn.loc, fn, "sanitizeResource dominates %d tree operation(s), which take the sanitized path" % len(tree))
 
+    # ... and sanitizeResource itself normalises on every path: a way round the duplicate-slash replacement is acceptable only behind a
+    # search of the *whole* path for a duplicate (three-valued: a search that starts behind the first character is a violation -- a
+    # leading "//" gets through; a guard of another shape is not modelled)
+    sr = lib.single(prog, N + "sanitizeResource")
+    norm = lambda e: e["k"] == "call" and strip_tmpl(e.get("callee") or "") in ("std::regex_replace",)
+    ck.require([e for e in sr.events("call") if norm(e)], "sanitizeResource: the duplicate-slash replacement (std::regex_replace) was not found")
+    loose = [x for x in cfg.exits_without(sr, norm) if x.kind != "throw"]
+    if not loose:
+        ck.ob("C10-R4", "sanitize:every-path-normalises", True, sr.loc, sr, "every path of sanitizeResource goes through the duplicate-slash replacement")
+    else:
+        # the searches that guard the way round
+        srch = [e for e in sr.events("call") if re.match(r"^std::basic_string(_view)?::find$", strip_tmpl(e.get("callee") or "")) and
+                any(isinstance(a.get("const"), str) and a["const"] in ("s://",) for a in (e.get("args") or []))]
+        if not srch:
+            raise AnalysisBroken("sanitizeResource has a path that does not normalise duplicate slashes and no search for \"//\" that guards it: shape not modelled")
+        starts = []
+        for e in srch:
+            a = [x for x in (e.get("args") or [])]
+            st_ = a[1] if len(a) > 1 else {"dflt": True, "const": 0}
+            starts.append(0 if st_.get("dflt") else st_.get("const"))
+        okst = all(x == 0 for x in starts)
+        if not okst and any(x is None for x in starts):
+            raise AnalysisBroken("sanitizeResource: the start position of the duplicate-slash search is not a constant: not modelled")
+        ck.ob("C10-R4", "sanitize:every-path-normalises", okst, srch[0].loc, sr,
+              "the way round the replacement is taken only when a search of the whole path finds no duplicate slash" if okst else
+              "sanitizeResource skips the duplicate-slash replacement when `%s` finds nothing, but that search starts at position %s: a duplicate at the very beginning of the path is not seen and reaches the tree as an empty first segment"
+              % ((srch[0].get("t") or "")[:50], starts))
+
+    # ... and in findRoute no candidate child is passed over without being asked: every way round a loop over a child collection goes
+    # through the recursive lookup on that child, and the wildcard child is tried whenever there is one
+    f = lib.single(prog, N + "findRoute") if False else [x for x in prog.find(N + "findRoute", 1) if len(x.params) == 3][0]
+    f = prog.flat(f)
+    isrec = lambda e: e["k"] == "call" and (e.get("callee") or "") == N + "findRoute" and len(e.get("args") or []) == 3
+    nloops = 0
+    for h, body in cfg.natural_loops(f):
+        if not any(isrec(e) for b_ in body for e in f.blocks[b_].elems):
+            continue
+        nloops += 1
+        hb = f.blocks[h]
+        ins = [s_ for s_ in hb.succs if s_ is not None and s_ in body and s_ != h]
+        skipped = False
+        for s_ in ins:
+            # events on a way from the loop body's entry back to the header without the lookup
+            seen_, work_ = set(), [s_]
+            while work_ and not skipped:
+                b_ = work_.pop()
+                if b_ in seen_ or b_ not in body:
+                    continue
+                seen_.add(b_)
+                if any(isrec(e) for e in f.blocks[b_].elems):
+                    continue
+                for n_ in f.blocks[b_].succs:
+                    if n_ == h:
+                        skipped = True
+                    elif n_ is not None:
+                        work_.append(n_)
+        ck.ob("C10-R1", "loop@%s/every-child-is-asked" % (hb.term or {}).get("l"), not skipped, "%s:%s" % (f.file, (hb.term or {}).get("l")), f,
+              "every iteration performs the recursive lookup on its child" if not skipped else
+              "an iteration of this loop over candidate children can go on to the next child without the recursive lookup: a child that would match (through an absent optional below it, say) is passed over")
+    ck.require(nloops >= 2, "loops over child collections in findRoute: %d" % nloops)
+    dom_f = cfg.dominators(f)
+    sp_calls = [e for e in f.events("call") if isrec(e) and (strip_tmpl((e.get("recv") or {}).get("f") or "") == N + "splat_" or
+                                                             re.sub(r"\s+|this->", "", (e.get("recv") or {}).get("t") or "") == "splat_")]
+    ck.require(sp_calls, "the recursive lookup on splat_ was not found in findRoute")
+    for e in sp_calls:
+        gs = []
+        for b_ in f.blocks.values():
+            t_ = b_.term
+            if not t_ or len([s_ for s_ in b_.succs if s_ is not None]) < 2 or t_.get("k") not in ("if", "land", "lor"):
+                continue
+            if ("f:" + N + "splat_") in [strip_tmpl(r) for r in (t_.get("refs") or [])] and cfg.block_dominates(dom_f, b_.id, e):
+                gs.append(b_)
+        extra = sorted({r for g_ in gs for r in (g_.term.get("refs") or []) if strip_tmpl(r) != "f:" + N + "splat_" and not r.startswith("c:std::") and r != "v:this"})
+        ck.ob("C10-R1", "splat/tried-whenever-present", bool(gs) and not extra, e.loc, f,
+              "the wildcard child is asked whenever splat_ is set" if gs and not extra else
+              "the lookup on the wildcard child also depends on %s: a wildcard route that would match is not always tried" % extra)
+
     # ---------------- R7: registration never replaces what is there; absent optionals are followed to the end ----------------
     ck.rule("C10-R7", "B guard dominates store + C must-pass-through",
             "SegmentTreeNode::addRoute stores into a child slot (splat_, route_) only on the edge that knows the slot is empty, and puts "
